@@ -616,3 +616,6 @@ def proved(run):
             C02_proved.update_accumulates(run, mod, rel, pid="C04")
         except (I.OutOfSubset, I.PyRaise, KeyError) as e:
             run.obligation(f"C04/{mod}.Earley._update/accumulates-registers-once", "out-of-subset", detail=str(e))
+
+    from props import resolves as _res
+    _res.budget_obligation(run, "C04")
